@@ -119,6 +119,7 @@ type frame struct {
 	fn     *ssa.Function
 	fi     *FuncInfo
 	phiSel map[*ssa.Phi]ssa.Value
+	rels   map[ssa.Value]Rel // comparison denoted by an inlined boolean call
 	regs   map[ssa.Value]string
 	// parameter substitution for inlined closures: free vars resolve through fi.bind in parent frame
 	parent *frame
@@ -357,6 +358,10 @@ func (fr *frame) cloneRegs() *frame {
 	for k, v := range fr.phiSel {
 		n.phiSel[k] = v
 	}
+	n.rels = map[ssa.Value]Rel{}
+	for k, v := range fr.rels {
+		n.rels[k] = v
+	}
 	n.defers = append([]deferred{}, fr.defers...)
 	return &n
 }
@@ -376,6 +381,10 @@ func (s *Sim) condRel(fr *frame, t *Trace, v ssa.Value) (Rel, bool) {
 		if x.Op == token.NOT {
 			r, ok := s.condRel(fr, t, x.X)
 			return r.Negate(), ok
+		}
+	case *ssa.Call:
+		if r, ok := fr.rels[x]; ok {
+			return r, true
 		}
 	}
 	return Rel{s.val(fr, t, v), "==", "true"}, true
@@ -711,6 +720,17 @@ func (s *Sim) call(fr *frame, t *Trace, x *ssa.Call) []string {
 				for _, rv := range y.Results {
 					res = append(res, s.val(cfr, t, rv))
 				}
+				if len(y.Results) == 1 {
+					switch rv := y.Results[0].(type) {
+					case *ssa.BinOp, *ssa.UnOp, *ssa.Call:
+						if r, ok := s.condRel(cfr, t, rv); ok && !(r.Op == "==" && r.B == "true" && r.A == res[0]) {
+							if fr.rels == nil {
+								fr.rels = map[ssa.Value]Rel{}
+							}
+							fr.rels[x] = r
+						}
+					}
+				}
 			}
 		}
 		return setRes(res)
@@ -766,4 +786,17 @@ func (s *Sim) TrueSummary(fn *ssa.Function) (sums [][]Rel, unsigned map[string]b
 		sums = append(sums, f)
 	}
 	return sums, unsigned, true
+}
+
+// TermsWithPrefix lists the terms occurring in the facts known at an event that start with prefix.
+func TermsWithPrefix(facts []Rel, prefix string) []string {
+	m := map[string]bool{}
+	for _, r := range facts {
+		for _, x := range []string{r.A, r.B} {
+			if strings.HasPrefix(x, prefix) {
+				m[x] = true
+			}
+		}
+	}
+	return sortedKeys(m)
 }
